@@ -100,6 +100,16 @@ func cycle(g, it int) {
 	}
 	br.Recycle()
 	r.Release(nil)
+	// shipped struct with a map, encoded and decoded (anything pooled or cached inside the generated codec is shared)
+	bx := &base.Base{LogID: string(small), Caller: "c", Addr: "a", Extra: map[string]string{"k1-" + string(small[:4]): string(big[:4200]), "k2": string(small), "k3": "v"}}
+	benc := make([]byte, bx.BLength())
+	if n := bx.FastWrite(benc); n != len(benc) {
+		fail("goroutine %d: Base.FastWrite wrote %d of %d bytes", g, n, len(benc))
+	}
+	var by base.Base
+	if n, err := by.FastRead(benc); err != nil || n != len(benc) || by.LogID != bx.LogID || len(by.Extra) != 3 || by.Extra["k2"] != string(small) || by.Extra["k1-"+string(small[:4])] != string(big[:4200]) {
+		fail("goroutine %d: Base round trip returned foreign/corrupt values", g)
+	}
 	// skip decoders
 	val := append([]byte{11, 0, 1}, encStr(nil, big)...)
 	val = append(val, 0)
